@@ -233,13 +233,10 @@ class C14(Prop):
             except LookupError:
                 out = {"status": "err", "err": "lookupError"}
             except TypeError as e:
-                msg = str(e)
-                if "not a subclass of Component" in msg:
-                    out = {"status": "err", "err": "notComponent", "path": msg.split(":", 1)[0]}
-                elif "component configuration must be either None or a" in msg:
-                    out = {"status": "err", "err": "badChildConfig", "path": msg.split(":", 1)[0]}
-                else:
-                    raise
+                # a TypeError from building the tree: the declared type is not a Component subclass, or a child's
+                # configuration is neither None nor a mapping (which of the two, and for which child, is only in
+                # the wording of the message)
+                out = {"status": "err", "err": "typeError"}
             out["log"] = [{"cls": e["cls"], "kwargs": to_cfg(e["kwargs"], cls_ids)} for e in compmod.LOG]
             return out
 
@@ -268,6 +265,8 @@ class C14(Prop):
                 ok = impl["err"] == "creating" and impl["path"] == model["path"] and impl["cls"] == model["cls"]
             elif model["err"] == "lookupError":
                 ok = impl["err"] == "lookupError"
+            elif model["err"] in ("notComponent", "badChildConfig"):
+                ok = impl["err"] == "typeError"
             else:
                 ok = impl["err"] == model["err"] and impl["path"] == (model["path"] or "(root)")
             return None if ok else f"model: {model}; implementation: {impl}"
